@@ -315,12 +315,15 @@ def stage_oracle_store(rep, rng, cases, extra):
     bad = 0
     allc = list(cases) + [gen_case(rng) for _ in range(extra)]
     for case in allc:
+        if bad > 25:
+            break
         for every in (False, True):
             msg = check_store_property(case, every)
             rep.case('o:%d:%r' % (every, case), len(case[1]) >= 3)
             if msg:
                 bad += 1
-                rep.fail('EnvVarDict: ' + msg, {'kind': 'store', 'case': case, 'every_step': every})
+                if bad <= 25:
+                    rep.fail('EnvVarDict: ' + msg, {'kind': 'store', 'case': case, 'every_step': every})
                 break
     rep.stage('oracle:changes-replay', cases=len(allc), failures=bad)
     return bad
@@ -627,7 +630,8 @@ def stage_w_env(rep, rng, n):
             rep.case('e:' + json.dumps(doc, sort_keys=True), True)
             if msg:
                 bad += 1
-                rep.fail('Environment: ' + msg, {'kind': 'env', 'document': doc})
+                if bad <= 25:
+                    rep.fail('Environment: ' + msg, {'kind': 'env', 'document': doc})
             if i < 2:
                 rep.sample({'stage': 'W:envjson', 'document': doc})
             variants = [(17, doc)]
